@@ -122,3 +122,9 @@ pub fn linear_ladder(jlo: i64, jhi: i64, denom: f64, both: bool) -> Vec<[f64; 2]
 pub fn dd_of(e: &Iv) -> Option<[f64; 2]> {
     e.lo.to_dy().to_dd_rn().map(|t| [t.0, t.1])
 }
+
+/// The first `n` members of the fixed generic double-double stream `stream` with high-word exponents in
+/// [emin, emax] (full-size mantissas in both words; see tfref::alpha::generic_dd).
+pub fn generic_stream(n: u64, stream: u64, emin: i32, emax: i32) -> Vec<[f64; 2]> {
+    (0..n).filter_map(|i| tfref::alpha::generic_dd(i, stream, emin, emax)).collect()
+}
